@@ -187,6 +187,11 @@ CHECKS.update({
         "note": TRUST + " Problems with at most 8 ground fluents (+2 auxiliary), all total states up to a cap per compilation; the MA-PDDL writer is not part of the check.",
         "technique": "TLA+ specification of multi-agent action semantics (TLC) judging, state by state, compilations produced by the real multi-agent compilers",
     },
+    "C22": {
+        "text": "ModelClone.tla has two layers: a content-only specification of Problem / ContingentProblem / HierarchicalProblem / MultiAgentProblem as edited through the public mutators (fluents, defaults, initial values, actions and their effects, timed effects with the conflict rule, goals, timed goals, trajectory constraints, metrics, time model, agents), and an implementation-shaped layer with the conflict bookkeeping (_fluents_assigned / _fluents_inc_dec) in which clone() copies a configurable set of fields. T1: TLC checks that the repaired configuration refines the content layer and reports, for each as-written configuration, which invariant breaks (with a counterexample trace). T2: TLC enumerates connected edit histories (clone at any point, then edits of original and clone, equality / hash / acceptance probes); Python replays them on the real classes and records a digest of both objects after every call; ModelCloneTrace judges call by call: clone == original right after cloning, later edits of one do not show in the other, both accept and reject the same later edits.",
+        "note": TRUST + " 88 edit instances, histories up to the stated length; aliasing of objects the property's operations never edit (HTN methods, task network) is not reachable.",
+        "technique": "TLA+ refinement check of clone() against a content-only model (TLC) + trace validation of TLC-enumerated edit histories replayed on the real problem classes",
+    },
 })
 
 NOT_APPLICABLE = {}
